@@ -1,43 +1,51 @@
-"""Mutation self-test: run every mutants/<prop>_*.diff against its check; report caught / missed.
-usage: python harness/selftest.py C01 C05 ...   (no args: all properties that have mutants)"""
+"""Mutation self-test: run every mutants/<prop>_*.diff and every seeded/<name>/patch.diff against its check; report caught / missed.
+usage: python harness/selftest.py [-j N] C01 C05 ...   (no property arguments: everything; -j: runs in parallel, default 3)"""
 import glob
+import json
 import os
 import re
 import sys
+from concurrent.futures import ThreadPoolExecutor
 
 sys.path.insert(0, os.path.dirname(os.path.dirname(os.path.abspath(__file__))))
 from harness.mutant import run_on_mutant, ROOT  # noqa: E402
 
 
+def one(job):
+    prop, label, patch = job
+    rc, out = run_on_mutant(patch, prop, quiet=True)
+    clauses = sorted(set(re.findall(r"^VIOLATION .*?clause=(\S+)", out, re.M)))
+    status = "CAUGHT" if rc == 1 and clauses else ("NOT-APPLIED" if rc == 3 else "MISSED rc=%d" % rc)
+    print("%-8s %-50s %s %s" % (prop, label, status, ",".join(clauses)[:160]), flush=True)
+    return status == "CAUGHT"
+
+
 def main():
-    props = sys.argv[1:] or sorted({os.path.basename(p).split("_")[0] for p in glob.glob(os.path.join(ROOT, "mutants", "*.diff"))})
-    missed = 0
+    args = sys.argv[1:]
+    j = 3
+    if "-j" in args:
+        k = args.index("-j")
+        j = int(args[k + 1])
+        args = args[:k] + args[k + 2:]
+    props = args or sorted({os.path.basename(p).split("_")[0] for p in glob.glob(os.path.join(ROOT, "mutants", "*.diff"))})
+    jobs = []
     for prop in props:
         for m in sorted(glob.glob(os.path.join(ROOT, "mutants", prop + "_*.diff"))):
-            rc, out = run_on_mutant(m, prop, quiet=True)
-            clauses = sorted(set(re.findall(r"^VIOLATION .*?clause=(\S+)", out, re.M)))
-            status = "CAUGHT" if rc == 1 and clauses else ("NOT-APPLIED" if rc == 3 else "MISSED rc=%d" % rc)
-            if status != "CAUGHT":
-                missed += 1
-            print("%-8s %-45s %s %s" % (prop, os.path.basename(m), status, ",".join(clauses)[:160]), flush=True)
+            jobs.append((prop, os.path.basename(m), m))
     # seeded changes written by independent sub-agents (seeded/<name>/patch.diff + meta.json)
-    import json
     for d in sorted(glob.glob(os.path.join(ROOT, "seeded", "*"))):
         meta = os.path.join(d, "meta.json")
         if not os.path.exists(meta):
             continue
         m = json.load(open(meta))
-        prop = m["property"]
-        if sys.argv[1:] and prop not in sys.argv[1:]:
+        if args and m["property"] not in args:
             continue
-        for chk in m.get("checks", [prop]):
-            rc, out = run_on_mutant(os.path.join(d, "patch.diff"), chk, quiet=True)
-            clauses = sorted(set(re.findall(r"^VIOLATION .*?clause=(\S+)", out, re.M)))
-            status = "CAUGHT" if rc == 1 and clauses else ("NOT-APPLIED" if rc == 3 else "MISSED rc=%d" % rc)
-            if status != "CAUGHT":
-                missed += 1
-            print("%-8s %-45s %s %s" % (chk, "seeded/" + os.path.basename(d), status, ",".join(clauses)[:160]), flush=True)
-    sys.exit(1 if missed else 0)
+        for chk in m.get("checks", [m["property"]]):
+            jobs.append((chk, "seeded/" + os.path.basename(d), os.path.join(d, "patch.diff")))
+    with ThreadPoolExecutor(max_workers=j) as ex:
+        ok = list(ex.map(one, jobs))
+    print("SELFTEST %d jobs, %d caught, %d not caught" % (len(ok), sum(ok), len(ok) - sum(ok)), flush=True)
+    sys.exit(0 if all(ok) else 1)
 
 
 if __name__ == "__main__":
